@@ -77,6 +77,7 @@ package interp
 //@   opt opaque-havoc = none
 //@   opt inline = isNil
 //@   requires [assume] n != nil
+//@   modifies n.rval, n.typ
 //@   ensures basic-target-checked: err == nil && old(n.typ != nil && n.typ.untyped && n.typ.cat != nilT) && typ != nil && !typ.untyped && basicTarget(typ) && old(isC(n.rval)) ==> representableConst(old(cOf(n.rval)), typ.TypeOf())
 //@   ensures typed-node-untouched: old(n.typ == nil || !n.typ.untyped) ==> err == nil && n.rval == old(n.rval) && n.typ == old(n.typ)
 //@   canary err == nil ==> n.typ == typ
@@ -112,3 +113,46 @@ package interp
 //@   fn-ensures float64-rounded-once: isC(n.rval) && t.Kind() == reflect.Float64 ==> rvFloat(v) == constF64(constToFloat(cOf(n.rval)))
 //@   fn-ensures complex64-from-any-numeric-constant: isC(n.rval) && t.Kind() == reflect.Complex64 ==> rvComplex(v) == croundKind(reflect.Complex64, ccomplex(constF32(constReal(cOf(n.rval))), constF32(constImag(cOf(n.rval)))))
 //@   fn-ensures complex128-from-any-numeric-constant: isC(n.rval) && t.Kind() == reflect.Complex128 ==> rvComplex(v) == croundKind(reflect.Complex128, ccomplex(constF64(constReal(cOf(n.rval))), constF64(constImag(cOf(n.rval)))))
+
+// Binary expression with one untyped constant operand (typecheck.binaryExpr): the constant takes the
+// type of the other operand and must be representable in it (x == 200 with x int8 is an error).
+//@ trusted func isBlank(n) (r)
+//@   pure
+//@ trusted func zeroConst(n) (r)
+//@   pure
+//@ func isAssignAction(a) (r)
+//@   props C03
+//@   pure
+//@   opt safety = off
+//@   ensures r == (a == aAddAssign || a == aAndAssign || a == aAndNotAssign || a == aMulAssign || a == aOrAssign || a == aQuoAssign || a == aRemAssign || a == aShlAssign || a == aShrAssign || a == aSubAssign || a == aXorAssign)
+//@ func isShiftAction(a) (r)
+//@   props C03
+//@   pure
+//@   opt safety = off
+//@   ensures r == (a == aShl || a == aShr || a == aShlAssign || a == aShrAssign)
+//@ func isComparisonAction(a) (r)
+//@   props C03
+//@   pure
+//@   opt safety = off
+//@   ensures r == (a == aEqual || a == aNotEqual || a == aGreater || a == aGreaterEqual || a == aLower || a == aLowerEqual)
+//@ func (check typecheck) binaryExpr(n) (err)
+//@   props C03
+//@   opt safety = off
+//@   opt opaque-calls = *
+//@   opt opaque-havoc = none
+//@   requires [assume] n != nil && len(n.child) == 2 && n.child[0] != nil && n.child[1] != nil && n.child[0] != n.child[1]
+//@   let c0: n.child[0]
+//@   let c1: n.child[1]
+//@   ensures comparison-constant-representable: err == nil && (n.action == aEqual || n.action == aNotEqual || n.action == aLower || n.action == aLowerEqual || n.action == aGreater || n.action == aGreaterEqual) && old(c1.typ != nil && c1.typ.untyped && c1.typ.cat != nilT && isC(c1.rval)) && old(c0.typ != nil && !c0.typ.untyped && basicTarget(c0.typ)) ==> representableConst(old(cOf(c1.rval)), old(c0.typ).TypeOf())
+
+// send statement (cfg.go, post-order case sendStmt): a sent untyped constant takes the channel's
+// element type and must be representable in it (ch <- 200 on a chan int8 is an error).
+//@ trusted func isChan(t) (r)
+//@   pure
+//@ lit Interpreter.cfg case:sendStmt () ()
+//@   props C03
+//@   opt safety = off
+//@   opt opaque-calls = *
+//@   opt opaque-havoc = none
+//@   requires [assume] len(n.child) == 2 && n.child[0] != nil && n.child[1] != nil
+//@   ensures sent-constant-representable: err == nil && old(n.child[1].typ != nil && n.child[1].typ.untyped && n.child[1].typ.cat != nilT && isC(n.child[1].rval)) && old(isChan(n.child[0].typ) && n.child[0].typ.val != nil && !n.child[0].typ.val.untyped && basicTarget(n.child[0].typ.val)) ==> representableConst(old(cOf(n.child[1].rval)), old(n.child[0].typ.val).TypeOf())
